@@ -153,13 +153,17 @@ Section Inverse.
           shirokov_loop chains n is' pw' powers' (cs ++ [c]) (xs ++ [xi]) (i, xi)
     end.
   Definition shirokov_n : nat := 2 ^ ((a_d A + 1) / 2).
-  Definition shirokov (x : mv R) : res (mv R * R) :=
+  (* the for loop: (i, xi, xs, cs) after it *)
+  Definition shirokov_run (x : mv R) : res (nat * mv R * list (mv R) * list R) :=
     let n := shirokov_n in
     chains <- minimal_chains (Z.of_nat n) ;;
-    '(i, xi, xs, cs) <- shirokov_loop chains n (seq 1 n) [(1, x)] [] [] [] (0%nat, []) ;;
-    let adj := if Nat.eqb i 1 then blade_e
-               else i_sub (last xs []) (scalar_mv (last cs (o_zero O))) in   (* xs[-1] - cs[-1] *)
-    Ok (adj, e_of xi).
+    shirokov_loop chains n (seq 1 n) [(1, x)] [] [] [] (0%nat, []).
+  (* if i == 1: adj = alg.blades.e  else: adj = xs[-1] - cs[-1];  return Fraction(adj, xi.e) *)
+  Definition shirokov_adj (i : nat) (xs : list (mv R)) (cs : list R) : mv R :=
+    if Nat.eqb i 1 then blade_e else i_sub (last xs []) (scalar_mv (last cs (o_zero O))).
+  Definition shirokov (x : mv R) : res (mv R * R) :=
+    '(i, xi, xs, cs) <- shirokov_run x ;;
+    Ok (shirokov_adj i xs cs, e_of xi).
 
   (* ---------------- codegen_inv / codegen_div ---------------- *)
   (* codegen_inv(y, symbolic=True) *)
